@@ -1248,6 +1248,14 @@ func (in *inst) doCall(st *State, c *ssa.Call) AVal {
 	}
 	if cc.IsInvoke() {
 		in.havocHeap(st)
+		// io.Reader / io.Writer contract: Read(p) and Write(p) return 0 <= n <= len(p)
+		if (cc.Method.Name() == "Read" || cc.Method.Name() == "Write") && len(args) == 1 && args[0].Kind == KSlice {
+			if tup, ok := c.Type().(*types.Tuple); ok && tup.Len() == 2 {
+				n := in.a.freshInt(st, tup.At(0).Type(), c.Name()+".n")
+				st.add(GE(n.Int, Const(0)), LE(n.Int, args[0].Len))
+				return AVal{Kind: KTuple, Tuple: []AVal{n, {Kind: KIface}}}
+			}
+		}
 	}
 	return in.a.freshOf(st, c.Type(), c.Name())
 }
